@@ -43,6 +43,7 @@ type config struct {
 	Subst    map[string]string `json:"subst"`     // "pkgpath.Func" -> "vrt-qualified replacement expr" (call-site substitution)
 	SubstImports map[string]string `json:"subst_imports"` // local name -> import path, added to files where a substitution happened
 	FSM      bool              `json:"fsm"`
+	ImportSubst map[string]map[string]string `json:"import_subst"` // module-relative package dir -> {import path -> replacement import path} (the replacement must offer the same names)
 	TypecheckVirtual map[string]string `json:"typecheck_virtual"` // virtual files needed only to type-check inject files (vrt itself)
 }
 
@@ -373,7 +374,15 @@ func (r *rewriter) rewrite() {
 			r.goDepth--
 			c.Replace(r.rewriteGo(n))
 		case *ast.ImportSpec:
-			if p, _ := strconv.Unquote(n.Path.Value); p == fsmOrig && r.cfg.FSM {
+			if p, _ := strconv.Unquote(n.Path.Value); r.importSubst()[p] != "" {
+				if n.Name == nil {
+					if pn, ok := r.info.Implicits[n].(*types.PkgName); ok {
+						n.Name = ast.NewIdent(pn.Name())
+					}
+				}
+				r.note(n.Pos(), "import "+p+" -> "+r.importSubst()[p])
+				n.Path.Value = strconv.Quote(r.importSubst()[p])
+			} else if p == fsmOrig && r.cfg.FSM {
 				n.Path.Value = strconv.Quote(fsmNew)
 				if n.Name == nil {
 					n.Name = ast.NewIdent("fsm")
@@ -387,6 +396,15 @@ func (r *rewriter) rewrite() {
 		r.file.Name = ast.NewIdent("fsm")
 	}
 	r.fixImports()
+}
+
+// importSubst returns the import replacements configured for this file's package.
+func (r *rewriter) importSubst() map[string]string {
+	if r.pkg == nil {
+		return nil
+	}
+	rel := strings.TrimPrefix(r.pkg.Path(), modPath+"/")
+	return r.cfg.ImportSubst[rel]
 }
 
 func (r *rewriter) filenameIsFSM() bool { return r.pkg != nil && r.pkg.Path() == fsmOrig }
